@@ -17,20 +17,27 @@ import (
 // mode 0: the property as stated; mode 1: the recorded situation (an i2rw
 // executing while its input's received register is still set from the previous
 // capture and valid is still high) is assumed away.
-func c04HDL(k, words, T, mode int) Outcome {
+func c04HDL(k, words, T, mode int) Outcome { return c04HDLOuts(k, words, T, mode, 1) }
+
+// c04PinCycles: with one consumer per output, the longest the producer keeps valid high after that consumer's
+// capture on the unchanged tree (found as the smallest value for which the family is clean)
+const c04PinCycles = 3
+
+// c04HDLOuts: the producer has `outs` outputs; consumer c reads output c mod outs
+func c04HDLOuts(k, words, T, mode, outs int) Outcome {
 	t0 := time.Now()
 	mname := "strict"
 	if mode == 1 {
 		mname = "known-situations-excluded"
 	}
-	o := Outcome{Config: Config{Name: fmt.Sprintf("hdl consumers=%d program_words=%d cycles=%d mode=%s", k, words, T, mname), Func: "generated Verilog (bmfull)"}}
-	doms := []string{"0:1:1:2:inc+j+nop+r2owa"}
+	o := Outcome{Config: Config{Name: fmt.Sprintf("hdl consumers=%d producer_outputs=%d program_words=%d cycles=%d mode=%s", k, outs, words, T, mname), Func: "generated Verilog (bmfull)"}}
+	doms := []string{fmt.Sprintf("0:%d:1:2:inc+j+nop+r2owa", outs)}
 	hist := []string{"P0"}
 	var bonds []string
 	for c := 1; c <= k; c++ {
 		doms = append(doms, "1:0:1:2:cpy+i2rw+inc+j+nop")
 		hist = append(hist, "P"+strconv.Itoa(c))
-		bonds = append(bonds, fmt.Sprintf("p%di0>p0o0", c))
+		bonds = append(bonds, fmt.Sprintf("p%di0>p0o%d", c, (c-1)%outs))
 	}
 	src, err := Native("bmfull", "8;"+strings.Join(doms, ",")+";"+strings.Join(hist, ",")+";"+strings.Join(bonds, ","))
 	if err != nil {
@@ -126,10 +133,14 @@ func c04HDL(k, words, T, mode int) Outcome {
 	// ghost monitor
 	const maxEv = 12
 	zero8 := st.BV(0, 8)
-	ns := zero8
-	sent := make([]*smt.Term, maxEv)
-	for i := range sent {
-		sent[i] = zero8
+	nsO := make([]*smt.Term, outs)
+	sentO := make([][]*smt.Term, outs)
+	for j := range nsO {
+		nsO[j] = zero8
+		sentO[j] = make([]*smt.Term, maxEv)
+		for i := range sentO[j] {
+			sentO[j][i] = zero8
+		}
 	}
 	ng := make([]*smt.Term, k)
 	got := make([][]*smt.Term, k)
@@ -139,6 +150,11 @@ func c04HDL(k, words, T, mode int) Outcome {
 		for i := range got[c] {
 			got[c][i] = zero8
 		}
+	}
+	// cycles since consumer c last captured (saturating)
+	sinceCap := make([]*smt.Term, k)
+	for c := range sinceCap {
+		sinceCap[c] = st.BV(255, 8)
 	}
 	var obls []TermObl
 	r2owa := opIndex(0, "r2owa")
@@ -153,7 +169,17 @@ func c04HDL(k, words, T, mode int) Outcome {
 		pc0 := sig(cur, 0, "_pc")
 		ins0 := sig(cur, 0, "current_instruction")
 		isR2owa := st.Eq(st.Extract(maxword[0]-1, maxword[0]-opbits[0], ins0), st.BV(uint64(r2owa), opbits[0]))
-		aux := sig(cur, 0, "_auxo0")
+		auxO := make([]*smt.Term, outs)
+		for j := range auxO {
+			auxO[j] = sig(cur, 0, fmt.Sprintf("_auxo%d", j))
+		}
+		// the output an r2owa names: the field after the register (one bit when there are two outputs)
+		outSel := func(j int) *smt.Term {
+			if outs == 1 {
+				return st.T
+			}
+			return st.Eq(st.Extract(maxword[0]-opbits[0]-2, maxword[0]-opbits[0]-2, ins0), st.BV(uint64(j), 1))
+		}
 		pcs := make([]*smt.Term, k)
 		isI2rw := make([]*smt.Term, k)
 		regSel := make([]*smt.Term, k)
@@ -165,6 +191,12 @@ func c04HDL(k, words, T, mode int) Outcome {
 			regSel[c] = st.Extract(maxword[p]-opbits[p]-1, maxword[p]-opbits[p]-1, ins)
 			if mode == 1 {
 				situation := st.And(isI2rw[c], st.And(st.Eq(sig(cur, p, "i0_valid"), st.BV(1, 1)), st.Eq(sig(cur, p, "i0_recv"), st.BV(1, 1))))
+				if outs > 1 {
+					// every output has one consumer here: the producer withdraws valid within a few cycles of the
+					// capture, so the recorded situation is pinned to that window - a valid that stays high for
+					// another reason is reported
+					situation = st.And(situation, st.Cmp(smt.OpBvUle, sinceCap[c], st.BV(c04PinCycles, 8)))
+				}
 				hyp = st.And(hyp, st.Not(situation))
 			}
 		}
@@ -176,11 +208,13 @@ func c04HDL(k, words, T, mode int) Outcome {
 		nxt := vlog.NewEval(d, st, "")
 		nxt.Cur = nx
 		// events
-		retire := st.And(isR2owa, st.Ne(sig(nxt, 0, "_pc"), pc0))
-		for i := range sent {
-			sent[i] = st.Ite(st.And(retire, st.Eq(ns, st.BV(uint64(i), 8))), aux, sent[i])
+		for j := 0; j < outs; j++ {
+			retire := st.And(st.And(isR2owa, outSel(j)), st.Ne(sig(nxt, 0, "_pc"), pc0))
+			for i := range sentO[j] {
+				sentO[j][i] = st.Ite(st.And(retire, st.Eq(nsO[j], st.BV(uint64(i), 8))), auxO[j], sentO[j][i])
+			}
+			nsO[j] = st.Ite(retire, st.Bin(smt.OpBvAdd, nsO[j], st.BV(1, 8)), nsO[j])
 		}
-		ns = st.Ite(retire, st.Bin(smt.OpBvAdd, ns, st.BV(1, 8)), ns)
 		for c := 0; c < k; c++ {
 			p := c + 1
 			capture := st.And(isI2rw[c], st.Ne(sig(nxt, p, "_pc"), pcs[c]))
@@ -189,11 +223,14 @@ func c04HDL(k, words, T, mode int) Outcome {
 				got[c][i] = st.Ite(st.And(capture, st.Eq(ng[c], st.BV(uint64(i), 8))), val, got[c][i])
 			}
 			ng[c] = st.Ite(capture, st.Bin(smt.OpBvAdd, ng[c], st.BV(1, 8)), ng[c])
+			sat := st.Ite(st.Eq(sinceCap[c], st.BV(255, 8)), sinceCap[c], st.Bin(smt.OpBvAdd, sinceCap[c], st.BV(1, 8)))
+			sinceCap[c] = st.Ite(capture, st.BV(0, 8), sat)
 		}
 		// assertions at this cycle (only the last cycles need separate queries: earlier ones are implied
 		// to be checked too, but each costs a query; check every 4th cycle and the last)
 		if t%4 == 3 || t == T-1 {
 			for c := 0; c < k; c++ {
+				ns, sent := nsO[c%outs], sentO[c%outs]
 				obls = append(obls, TermObl{Tag: fmt.Sprintf("no-loss c%d @%d", c, t), Kind: "assert", Hyp: hyp, Concl: st.Cmp(smt.OpBvUle, ns, ng[c])})
 				obls = append(obls, TermObl{Tag: fmt.Sprintf("no-duplicate c%d @%d", c, t), Kind: "assert", Hyp: hyp, Concl: st.Cmp(smt.OpBvUle, ng[c], st.Bin(smt.OpBvAdd, ns, st.BV(1, 8)))})
 				same := st.T
@@ -208,8 +245,11 @@ func c04HDL(k, words, T, mode int) Outcome {
 	}
 	// vacuity: some program really transfers two values within the horizon
 	obls = append(obls, TermObl{Tag: "a consumer captures", Kind: "reach", Hyp: st.And(hyp, st.Cmp(smt.OpBvUle, st.BV(1, 8), ng[0]))})
-	obls = append(obls, TermObl{Tag: "the producer retires an r2owa", Kind: "reach", Hyp: st.And(hyp, st.Cmp(smt.OpBvUle, st.BV(1, 8), ns))})
-	obls = append(obls, TermObl{Tag: "two transfers happen", Kind: "reach", Hyp: st.And(hyp, st.Cmp(smt.OpBvUle, st.BV(2, 8), ns))})
+	obls = append(obls, TermObl{Tag: "the producer retires an r2owa", Kind: "reach", Hyp: st.And(hyp, st.Cmp(smt.OpBvUle, st.BV(1, 8), nsO[0]))})
+	obls = append(obls, TermObl{Tag: "two transfers happen", Kind: "reach", Hyp: st.And(hyp, st.Cmp(smt.OpBvUle, st.BV(2, 8), nsO[0]))})
+	if outs > 1 {
+		obls = append(obls, TermObl{Tag: "both outputs transfer", Kind: "reach", Hyp: st.And(hyp, st.And(st.Cmp(smt.OpBvUle, st.BV(1, 8), nsO[0]), st.Cmp(smt.OpBvUle, st.BV(1, 8), nsO[1])))})
+	}
 	o.Obls = DecideTerms(st, sol, obls, nil)
 	// monotone properties: a violation at cycle t is also reported at later cycles; keep the first per kind
 	seen := map[string]bool{}
